@@ -89,6 +89,8 @@ def kinds():
     def cipherkind(mk, blk): return {'make': mk, 'probe': [lambda o: o.enc(blk), lambda o: o.dec(blk)], 'alphabet': [lambda o: o.enc(bytes(len(blk))), lambda o: o.dec(blk[::-1]), lambda o: o.enc(blk + b'x')]}
     K['AES'] = cipherkind(lambda: aes.AES(bytes(16)), blk16)
     K['AES-siblings'] = {'make': lambda: aes.AES(bytes(16)), 'probe': [lambda o: o.enc(blk16)], 'alphabet': [lambda o: aes.AES(bytes(32)).enc(blk16), lambda o: aes.AES(bytes(24)).dec(blk16), lambda o: aes.AES(bytes(15) + b'\x01').enc(blk16)]}
+    K['AES-created-after-siblings'] = {'make': lambda: None, 'probe': [lambda o: aes.AES(bytes(16)).enc(blk16), lambda o: aes.AES(bytes(15) + b'\x01').dec(blk16), lambda o: aes.AES(bytes(24)).enc(blk16)],
+                                       'alphabet': [lambda o: aes.AES(bytes(32)).enc(blk16), lambda o: aes.AES(bytes(24)).dec(blk16), lambda o: aes.AES(bytes(16)).enc(blk16), lambda o: aes.AES(bytes(15) + b'\x01' + bytes(16)).enc(blk16)]}
     K['DES'] = cipherkind(lambda: des.DES(b'12345678'), blk8); K['TDEA'] = cipherkind(lambda: des.TDEA(bytes(range(24))), blk8)
     K['Serpent'] = cipherkind(lambda: serpent.Serpent(b'k' * 16), blk16); K['Threefish'] = cipherkind(lambda: threefish.Threefish(bytes(32), bytes(16)), bytes(range(32)))
     def modekind(mk): return {'make': mk, 'probe': [lambda o: o.enc(m2), lambda o: o.dec(type(o).enc(mk(), m2))], 'alphabet': [lambda o: o.enc(m1), lambda o: o.enc(b''), lambda o: o.dec(b'123'), lambda o: o.dec(o.enc(bytes(32)))]}
@@ -114,14 +116,32 @@ def _(c):
     depth = 3 if os.environ.get('VERIF_TIER') == 'thorough' else 2
     fresh = k.get('fresh', k['make'])
     for pi, probe in enumerate(k['probe']):
-        ref = run(probe, fresh())
-        digest = val_digest(ref)
+        digest = in_child(lambda: val_digest(run(probe, fresh())))          # the reference: a fresh object in a fresh process
         for n in range(0, depth + 1):
             for seq in itertools.product(range(len(k['alphabet'])), repeat=n):
-                o = k['make']()
-                for a in seq: run(k['alphabet'][a], o)
-                got = run(probe, o)
-                c.ensure('%s: probe %d after %s' % (c.case('kind'), pi, list(seq)), val_digest(got) == digest)
+                def history():
+                    o = k['make']()
+                    for a in seq: run(k['alphabet'][a], o)
+                    return val_digest(run(probe, o))
+                c.ensure('%s: probe %d after %s' % (c.case('kind'), pi, list(seq)), in_child(history) == digest)
+
+def in_child(fn):
+    """run fn in a forked child so that module-level and class-level state written by one history cannot reach another"""
+    import os, pickle
+    r, w = os.pipe()
+    pid = os.fork()
+    if pid == 0:
+        try:
+            os.close(r)
+            try: out = ('ok', fn())
+            except BaseException as e: out = ('crash', repr(e))
+            with os.fdopen(w, 'wb') as f: pickle.dump(out, f)
+        finally:
+            os._exit(0)
+    os.close(w)
+    with os.fdopen(r, 'rb') as f: data = f.read()
+    os.waitpid(pid, 0)
+    return pickle.loads(data)
 
 def val_digest(r):
     st, v = r
